@@ -85,7 +85,33 @@ fn valid_doc(r: &mut Rng) -> (Doc, String) {
     let p = if r.chance(1, 40) { Profile::wide() } else { p };
     let p = Profile { n_docs: (1, 1), ..p };
     let docs = gen::random_history(r, &p, "b");
-    let d = docs.into_iter().next().unwrap();
+    let mut d = docs.into_iter().next().unwrap();
+    if r.chance(1, 16) {
+        // names no XML document may have but quick-xml passes through: leading digits, bare separators,
+        // empty prefixes / local parts, non-identifier characters
+        const HOSTILE: &[&str] = &["1a", "2nd", "3d", "9", "-x", ".y", "a:", ":b", "x::y", "_", "__", "x²", "a'b", "Ⅳ", "٣", "a\u{301}", "\u{301}a", "xmlns:", ":", "xml:", "a.-.b", "0", "𝟏a", "É", "ß:ß"];
+        let victim: String = {
+            let mut names: Vec<String> = Vec::new();
+            d.root.walk_mut(&mut |e: &mut Elem| {
+                if !names.contains(&e.name) {
+                    names.push(e.name.clone());
+                }
+            });
+            r.pick(&names).clone()
+        };
+        let new_name = r.pick(HOSTILE).to_string();
+        let attrs_too = r.chance(1, 2);
+        d.root.walk_mut(&mut |e: &mut Elem| {
+            if e.name == victim {
+                e.name = new_name.clone();
+            }
+            if attrs_too {
+                if let Some(a) = e.attrs.first_mut() {
+                    a.0 = new_name.clone();
+                }
+            }
+        });
+    }
     let s = if r.chance(1, 2) { Surface::plain() } else { Surface::seeded_with_lead(r.next()) };
     let t = gen::write_doc(&d, &s);
     (d, t)
